@@ -108,7 +108,8 @@ std::unique_ptr<NodeResult> WriteFileNode::evaluate(PSC::Context &ctx) {
             throw PSC::TypeOperationError(token, ctx, "Write");
     }
 
-    file->write(*data);
+    if (!file->write(*data))
+        throw PSC::RuntimeError(token, ctx, "Failed to write to file '" + filename.value + "'");
 
     return std::make_unique<NodeResult>(nullptr, PSC::DataType::NONE);
 }
